@@ -805,3 +805,25 @@ VARIANTS["C12"] += [
       "        self._time_keeper.start_of_time()\n        self._tuner_sleep_time = backend.tuner_sleep_time\n        # Modify ``tuner.stop_criterion`` in case it depends on wallclock time\n        self._modify_stop_criterion(tuner)\n",
       "        self._modify_stop_criterion(tuner)\n        self._time_keeper.start_of_time()\n        self._tuner_sleep_time = backend.tuner_sleep_time\n"),
 ]
+
+for _p in ("C13", "C14"):
+    VARIANTS[_p] += [
+        B("BO searcher: a failed trial keeps its pending evaluation", _MBS,
+          "        # Remove pending evaluation\n        self.state_transformer.drop_pending_evaluation(trial_id)\n",
+          "        # Remove pending evaluation\n"),
+        B("multi-fidelity searcher: pending evaluations of a failed trial cleaned up only if it was observed", "syne_tune/optimizer/schedulers/searchers/gp_multifidelity_searcher.py",
+          "        # Remove all pending evaluations for trial\n        self.cleanup_pending(trial_id)\n",
+          "        # Remove all pending evaluations for trial\n        if self.state_transformer.state.is_labeled(trial_id):\n            self.cleanup_pending(trial_id)\n"),
+    ]
+
+VARIANTS["C13"] += [
+    B("run ends when the number of failures reaches the limit", T,
+      "            or self.tuning_status.num_trials_failed > self.max_failures\n        )",
+      "            or self.tuning_status.num_trials_failed >= self.max_failures\n        )"),
+    B("failure error raised although the limit was only reached", T,
+      "            if self.tuning_status.num_trials_failed > self.max_failures:\n                self._handle_failure(",
+      "            if self.tuning_status.num_trials_failed >= self.max_failures:\n                self._handle_failure("),
+    E("failure limit written the other way round", T,
+      "            or self.tuning_status.num_trials_failed > self.max_failures\n        )",
+      "            or self.max_failures < self.tuning_status.num_trials_failed\n        )"),
+]
